@@ -1,6 +1,6 @@
 (* Reusable lemmas about the definitions of Base/Prelude.v: split_z, run, bind, iterP/iterZ
    and the reader primitives (decode-after-encode, encoders in Spec/Encode.v). *)
-From Ase Require Export Base.Prelude Spec.Encode.
+From Ase Require Export Base.Prelude Base.PreludeFacts Spec.Encode.
 
 (* ------------------------------------------------------------------ *)
 (* zlen *)
